@@ -497,3 +497,102 @@ Lemma c10_abs_site_is_abs_entry pos target loff :
   (forall h off, exists a, e_kind (site_entry h off (SAbs pos target loff)) = RRelToAbs a) /\
   (forall h off, e_fmt (site_entry h off (SAbs pos target loff)) = ufmt 8 /\ e_old (site_entry h off (SAbs pos target loff)) = 0).
 Proof. split; intros h off; cbn [site_entry e_kind e_fmt e_old]; eauto. Qed.
+
+(* ------------------------------------------------------------------ round 6: C10's expression sites by constructor (main has C10 round 4) *)
+Lemma c10_expr_site_is_expr_entry p t1 o1 t2 o2 n :
+  (forall h off, exists a b, e_kind (site_entry h off (SExpr p t1 o1 t2 o2 n)) = RExpr a b) /\
+  (forall h off, e_fmt (site_entry h off (SExpr p t1 o1 t2 o2 n)) = sfmt n /\ e_old (site_entry h off (SExpr p t1 o1 t2 o2 n)) = 0).
+Proof. split; intros h off; cbn [site_entry e_kind e_fmt e_old]; eauto. Qed.
+
+(* embed_label_delta(l1, l2, n) across sections, installed by JitRuntime::_add: both sections exist in the flattened holder, the n
+   installed bytes at the site decode (signed) to (offset of section t1 + o1) - (offset of section t2 + o2), and that difference fits *)
+Theorem installed_sexpr st calls base fill final img h2 i p t1 o1 t2 o2 n :
+  wf_holder (jh st) -> data_len_ok (jh st) ->
+  (forall h1, flatten (jh st) = (EOk, h1) -> NoDup (map sid h1) /\ (forall s, In s h1 -> 0 <= sid s)) ->
+  jtab st <> Some 0 -> (forall h off, sites_disjoint (map (site_entry h off) calls)) ->
+  jit_add_reloc st calls base fill = (JOk, final, img, h2) ->
+  nth_error calls i = Some (SExpr p t1 o1 t2 o2 n) -> n = 1 \/ n = 2 \/ n = 4 \/ n = 8 ->
+  exists h1 text s1 s2 w,
+    flatten (jh st) = (EOk, h1) /\ by_id h1 0 = Some text /\ by_id h1 t1 = Some s1 /\ by_id h1 t2 = Some s2 /\
+    let d := to_i64 (wrap 64 ((soff s1 + o1) - (soff s2 + o2))) in
+    decode_signed (sfmt n) w = d /\ - 2 ^ (8 * n - 1) <= d < 2 ^ (8 * n - 1) /\
+    (forall k, 0 <= k < n -> soff text + p + k < final -> cell (flat img) (soff text + p + k) = cell (le_bytes (Z.to_nat n) w) k).
+Proof.
+  intros Hwf Hdl Hid Htab Hcd E Hi Hn.
+  destruct (c10_expr_site_is_expr_entry p t1 o1 t2 o2 n) as (HK & HF).
+  destruct (installed_expr_site st calls base fill final img h2 i _ n Hwf Hdl Hid Htab Hcd E Hi HK HF Hn)
+    as (h1 & text & pl & pb & w & Ef & Et & Hk & Hd & Hr & Hb).
+  cbn [site_entry e_kind e_off e_lead] in Hk, Hb.
+  destruct (by_id h1 t1) as [s1|] eqn:E1; [|discriminate]. destruct (by_id h1 t2) as [s2|] eqn:E2; [|discriminate].
+  injection Hk as <- <-. exists h1, text, s1, s2, w. split; [exact Ef|]. split; [exact Et|]. split; [exact E1|]. split; [exact E2|].
+  cbv zeta. split; [exact Hd|]. split; [exact Hr|].
+  intros k Hk Hf. replace (soff text + p + k) with (soff text + p + 0 + k) by lia. apply Hb; lia.
+Qed.
+
+(* the hypotheses are satisfiable: .text = 8 zero bytes with a 4-byte `embed_label_delta(L1, L0)` at offset 0, L0 at .text + 2, L1 at
+   offset 5 of a 16-aligned second section; installed at base 0x400000 the four bytes hold (16 + 5) - (0 + 2) = 19 *)
+Definition ex_expr_state : jstate :=
+  mkJ [ mkSection 0 INT_MIN 0 0 0 8 (zeros 8) []; mkSection 1 0 16 NO_OFFSET 0 6 [1; 2; 3; 4; 5; 6] [] ] None [].
+
+Example installed_sexpr_witness : exists final img h2,
+  wf_holder (jh ex_expr_state) /\ data_len_ok (jh ex_expr_state) /\
+  (forall h1, flatten (jh ex_expr_state) = (EOk, h1) -> NoDup (map sid h1) /\ (forall s, In s h1 -> 0 <= sid s)) /\
+  jtab ex_expr_state <> Some 0 /\ (forall h off, sites_disjoint (map (site_entry h off) [SExpr 0 1 5 0 2 4])) /\
+  jit_add_reloc ex_expr_state [SExpr 0 1 5 0 2 4] 4194304 204 = (JOk, final, img, h2) /\
+  final = 22 /\ map (cell (flat img)) [0; 1; 2; 3; 4; 16; 21] = [19; 0; 0; 0; 0; 1; 6].
+Proof.
+  eexists. eexists. eexists.
+  split. { unfold wf_holder, ex_expr_state, jh. repeat apply Forall_cons; try apply Forall_nil; unfold wf_sec; cbn [svsize sbsize salign];
+           (split; [vm_compute; split; [discriminate|reflexivity]|]); (split; [vm_compute; split; [discriminate|reflexivity]|]);
+           [left; reflexivity|right; exists 4; split; [lia|reflexivity]]. }
+  split. { unfold data_len_ok, ex_expr_state, jh. repeat apply Forall_cons; try apply Forall_nil; reflexivity. }
+  split. { intros h1 H. vm_compute in H. injection H as <-. split.
+           - cbn [map sid]. repeat constructor; cbn [In]; intuition discriminate.
+           - intros s [<-|[<-|[]]]; cbn [sid]; lia. }
+  split. { cbn [ex_expr_state jtab]. discriminate. }
+  split. { intros h off i j a b Ha Hb Hij. destruct i as [|[|i]], j as [|[|j]]; cbn in Ha, Hb; try discriminate; congruence. }
+  split; [vm_compute; reflexivity|]. split; vm_compute; reflexivity.
+Qed.
+
+(* ------------------------------------------------------------------ what relocation + installation must NOT change *)
+(* every .text byte outside the (conservative) ranges [value word - 2, end of value word) of all sites, and every byte of every other
+   section except the address table, is installed exactly as the flattened holder had it *)
+Theorem installed_outside_sites st calls base fill final img h2 :
+  wf_holder (jh st) -> data_len_ok (jh st) ->
+  (forall h1, flatten (jh st) = (EOk, h1) -> NoDup (map sid h1) /\ (forall s, In s h1 -> 0 <= sid s)) ->
+  jtab st <> Some 0 ->
+  jit_add_reloc st calls base fill = (JOk, final, img, h2) ->
+  exists h1 text,
+    flatten (jh st) = (EOk, h1) /\ by_id h1 0 = Some text /\
+    (forall k, 0 <= k < sbsize text ->
+       (forall c, In c calls -> let e := site_entry h1 (soff text) c in ~ (site_lo e <= k < site_hi e)) ->
+       soff text + k < final -> cell (flat img) (soff text + k) = cell (sdata text) k) /\
+    (forall s, In s h1 -> sid s <> 0 -> jtab st <> Some (sid s) ->
+       forall k, 0 <= k < sbsize s -> soff s + k < final -> cell (flat img) (soff s + k) = cell (sdata s) k).
+Proof.
+  intros Hwf Hdl Hid Htab E.
+  destruct (jit_reloc_unfold st calls base fill final img h2 Hwf Hdl Hid E)
+    as (h1 & text & t & atoff & reserved & last & r & Ef & Et & Hin & Esid & Hlen & Eb & Esel & Erel & Hfit & Eh2 & Hcells).
+  set (es := map (site_entry h1 (soff text)) calls) in *.
+  assert (Ht : t = -1 \/ jtab st = Some t).
+  { destruct (jtab st) as [t0|]; [destruct (by_id h1 t0); injection Esel as <- _ _ _; auto|injection Esel as <- _ _ _; auto]. }
+  assert (Ht0 : t <> 0) by (destruct Ht as [-> | Ht]; [lia|congruence]).
+  exists h1, text. split; [exact Ef|]. split; [exact Et|]. split.
+  - intros k Hk Hout Hf.
+    set (text2 := set_data text (patch_all (sdata text) es (rr_outs r))).
+    assert (Hin2 : In text2 h2).
+    { rewrite Eh2. apply in_map_iff. exists text. split; [|exact Hin].
+      replace (sid text =? t) with false by (symmetry; apply Z.eqb_neq; lia).
+      replace (sid text =? 0) with true by (symmetry; apply Z.eqb_eq; exact Esid). reflexivity. }
+    specialize (Hcells text2 Hin2 k). assert (Hb2 : sbsize text2 = sbsize text) by reflexivity. assert (Ho2 : soff text2 = soff text) by reflexivity.
+    rewrite Hb2, Ho2 in Hcells. rewrite Hcells by lia. change (sdata text2) with (patch_all (sdata text) es (rr_outs r)).
+    apply patch_all_outside; [lia|]. intros e He. split; [apply (c10_sites_wf text h1 (soff text) calls Eb Hlen); exact He|].
+    unfold es in He. apply in_map_iff in He. destruct He as (c & <- & Hc). exact (Hout c Hc).
+  - intros s Hs Hs0 Hst k Hk Hf.
+    assert (Hin2 : In s h2).
+    { rewrite Eh2. apply in_map_iff. exists s. split; [|exact Hs].
+      replace (sid s =? t) with false.
+      2:{ symmetry. apply Z.eqb_neq. destruct Ht as [-> | Ht]; [destruct (Hid h1 Ef) as (_ & Hpos); specialize (Hpos s Hs); lia|congruence]. }
+      replace (sid s =? 0) with false by (symmetry; apply Z.eqb_neq; exact Hs0). reflexivity. }
+    exact (Hcells s Hin2 k Hk Hf).
+Qed.
